@@ -23,7 +23,7 @@ if git apply "$src/patch.diff"; then applied=yes; else applied=no; fi
 rc_with=$(run_demo /tmp/confirm/${id}_$m.demo_with.log)
 PYTHONPATH=$wt/src timeout 1500 /venv/bin/python -m pytest -q -p no:cacheprovider --timeout=900 testing > /tmp/confirm/${id}_$m.suite.log 2>&1
 fails=$(grep -E "^(FAILED|ERROR)" /tmp/confirm/${id}_$m.suite.log | grep -v -E "test_channel_passing_over_channel|test_dont_write_bytecode|test__rinfo|test_waitclose_on_remote_killed" | tr '\n' ';')
-summary=$(tail -1 /tmp/confirm/${id}_$m.suite.log)
+summary=$(grep -E "[0-9]+ passed" /tmp/confirm/${id}_$m.suite.log | tail -1)
 echo "id=$id m=$m applied=$applied demo_without_rc=$rc_without demo_with_rc=$rc_with unexpected_suite_failures=[$fails] suite=[$summary]" > "$out"
 cd /; git -C /repo worktree remove --force "$wt"
 cat "$out"
